@@ -5,7 +5,7 @@ CONSTANTS
   B = 1
   MaxFail = 1
   MaxCancel = 1
-  Defects = {"LateSubmit"}
+  Defects = {}
   RankOf <- Ranks
 
 CHECK_DEADLOCK FALSE
